@@ -14,6 +14,7 @@ import Gzx.Proofs.DMRoundTripGen
 import Gzx.Properties.C08
 import Gzx.Model.RS
 import Gzx.Proofs.DMCompose
+import Gzx.Proofs.DMLookAhead
 namespace Gzx.Properties.C02
 open Gzx Gzx.DMHighLevel
 
@@ -237,9 +238,84 @@ theorem dm_roundtrip_five_modes_partial (syms : List SymbolInfo) (la : LookAhead
     decodeText refTables cw = .ok msg :=
   roundtrip_gen syms la msg cfg cw hNoE hTA hXT hb h
 
+/-- the same with the EDIFACT condition for THIS message only: along the message the oracle never proposes
+    EDIFACT from ASCII (`LaNoEdifactOn`); strictly weaker than `LaNoEdifact` -/
+theorem dm_roundtrip_five_modes_on_partial (syms : List SymbolInfo) (la : LookAhead) (msg : List Nat) (cfg : Cfg)
+    (cw : List Nat) (hNoE : LaNoEdifactOn la msg)
+    (hTA : LaTailAscii la msg (initCtx msg cfg).total) (hXT : LaX12Tail la msg (initCtx msg cfg).total)
+    (hb : ∀ x ∈ msg, x < 256) (h : encodeHL syms la msg cfg = .ok cw) :
+    decodeText refTables cw = .ok msg :=
+  roundtrip_gen_on syms la msg cfg cw hNoE hTA hXT hb h
+
+/-! ### the real look-ahead: exact arithmetic up to float rounding
+
+  `laExactR ρ` (Model/DMHighLevel.lean Part 5) is `HighLevelEncoder_lookAheadTest` computed with exact counts in
+  units of 1/12, where `ρ` says at which steps the float64 sum of thirds of the C40 / Text / X12 count came out
+  above an integer (so that `math.Ceil` is one higher).  `LaFloatLike la`: every decision of `la` is the decision
+  of `laExactR ρ` for some `ρ`.  The harness establishes this for the real function decision by decision (suite
+  dm-la, op `laxr`: it recomputes the float64 sums next to the exact ones, checks that they differ only in that
+  way, and compares the real decision with `laExactR` under the observed `ρ`); plain exact arithmetic
+  (`laExact = laExactR noBump`) decides differently in ≈ 0.16 % of the sampled calls. -/
+
+/-- `LaTailAscii` is a THEOREM for the exact look-ahead under every float rounding: with one character left
+    (followed by the macro trailer RS EOT, if the message is a macro 05/06 message) it answers ASCII from ASCII -/
+theorem la_tail_ascii (ρ : Bump) (msg : List Nat) (cfg : Cfg) :
+    LaTailAscii (laExactR ρ) msg (initCtx msg cfg).total :=
+  laExactR_tail_ascii ρ msg _ (totOK_initCtx msg cfg)
+
+/-- `LaX12Tail` is a THEOREM for the exact look-ahead under every float rounding: for three characters followed by
+    one extended character at the end of the message (plus macro trailer) it answers X12 neither from X12 nor from
+    ASCII — wherever steps R / K look, the ASCII count is strictly below the X12 count -/
+theorem la_x12_tail (ρ : Bump) (msg : List Nat) (cfg : Cfg) :
+    LaX12Tail (laExactR ρ) msg (initCtx msg cfg).total :=
+  laExactR_x12_tail ρ msg _ (totOK_initCtx msg cfg)
+
+/-- `dm_roundtrip` for every look-ahead that is exact arithmetic up to float rounding (`LaFloatLike`, in particular
+    `laExact` and every `laExactR ρ`): the two end-of-message conditions are discharged; what remains is
+    `LaNoEdifactOn la msg` — along this message the look-ahead never proposes EDIFACT from ASCII (e.g. the message
+    has no four consecutive EDIFACT-native characters: `la_no_edifact_of_no_quad`). -/
+theorem dm_roundtrip_real_lookahead_partial (syms : List SymbolInfo) (la : LookAhead) (hla : LaFloatLike la)
+    (msg : List Nat) (cfg : Cfg) (cw : List Nat) (hNoE : LaNoEdifactOn la msg)
+    (hb : ∀ x ∈ msg, x < 256) (h : encodeHL syms la msg cfg = .ok cw) :
+    decodeText refTables cw = .ok msg := by
+  obtain ⟨hTA, hXT⟩ := floatLike_tail_conditions la hla msg _ (totOK_initCtx msg cfg)
+  exact roundtrip_gen_on syms la msg cfg cw hNoE hTA hXT hb h
+
+/-- a sufficient condition for `LaNoEdifactOn`: if every window of four consecutive characters of the message
+    contains a character EDIFACT cannot encode, the exact look-ahead never proposes EDIFACT (its whole-group guard
+    answers ASCII when four characters follow; with at most three EDIFACT-native characters left before the end
+    the ASCII count is minimal), whatever the float rounding -/
+theorem la_no_edifact_of_no_quad (la : LookAhead) (hla : LaFloatLike la) (msg : List Nat)
+    (H : ∀ p, p + 4 ≤ msg.length → ((msg.drop p).take 4).all isNativeEDIFACT = false) :
+    LaNoEdifactOn la msg := by
+  intro p
+  obtain ⟨ρ, hρ⟩ := hla msg p ASCII
+  rw [hρ]
+  exact laExactR_no_edifact ρ msg H p
+
+/-- `dm_roundtrip` WITHOUT any oracle hypothesis for messages that have no four consecutive EDIFACT-native
+    characters (0x20..0x5E), every symbol table and hint configuration: for every look-ahead that is exact
+    arithmetic up to float rounding, what `encodeHL` returns decodes to exactly the message. -/
+theorem dm_roundtrip_no_edifact_window (syms : List SymbolInfo) (la : LookAhead) (hla : LaFloatLike la)
+    (msg : List Nat) (cfg : Cfg) (cw : List Nat)
+    (H : ∀ p, p + 4 ≤ msg.length → ((msg.drop p).take 4).all isNativeEDIFACT = false)
+    (hb : ∀ x ∈ msg, x < 256) (h : encodeHL syms la msg cfg = .ok cw) :
+    decodeText refTables cw = .ok msg :=
+  dm_roundtrip_real_lookahead_partial syms la hla msg cfg cw (la_no_edifact_of_no_quad la hla msg H) hb h
+
+example : LaFloatLike laExact := fun _ _ _ => ⟨noBump, rfl⟩
+example (ρ : Bump) : LaFloatLike (laExactR ρ) := fun _ _ _ => ⟨ρ, rfl⟩
 /-- table used by the examples: symbols of 4, 8 and 1558 data codewords -/
 def exSyms : List SymbolInfo := [⟨false, 4, 5, 8, 8, 1⟩, ⟨false, 8, 7, 10, 10, 1⟩, ⟨false, 1558, 620, 22, 22, 36⟩]
 
+/-- non-vacuity for the exact look-ahead: "abcdefghi" is latched to Text at once (three triplets, unlatch fills the
+    8-codeword symbol), "ABCDEFGHIJ" to C40 (three triplets, last character in ASCII without unlatch: tail state) -/
+example : encodeHL exSyms laExact [97, 98, 99, 100, 101, 102, 103, 104, 105] {} =
+    .ok [239, 89, 233, 109, 36, 128, 95, 254] := by decide +kernel
+example : encodeHL exSyms laExact [65, 66, 67, 68, 69, 70, 71, 72, 73, 74] {} =
+    .ok [230, 89, 233, 109, 36, 128, 95, 75] := by decide +kernel
+example : decodeText refTables [230, 89, 233, 109, 36, 128, 95, 75] = .ok [65, 66, 67, 68, 69, 70, 71, 72, 73, 74] := by
+  decide +kernel
 /-- non-vacuity: an oracle that latches C40 at the start ("ABCDEFG": two triplets, unlatch, 'G' in ASCII) -/
 example : encodeHL exSyms (fun _ pos mode => if mode = ASCII then (if pos = 0 then C40 else ASCII) else mode)
     [65, 66, 67, 68, 69, 70, 71] {} = .ok [230, 89, 233, 109, 36, 254, 72, 129] := by decide
